@@ -1,0 +1,47 @@
+// Verification hooks (cargo feature `verif_hooks`, off by default).
+//
+// Everything in here is thread-local so that concurrently running checks do not
+// interfere with each other. With the feature off this module is not compiled and
+// the crate is byte-for-byte the original.
+
+use std::cell::Cell;
+
+thread_local! {
+    /// Number of bytes `filter_kmers` multiplies `memory_size` with to obtain its memory
+    /// budget (the original code uses 10^9). `None` keeps the original behaviour.
+    static MEM_UNIT: Cell<Option<usize>> = Cell::new(None);
+    /// Number of bucket passes made by the last `filter_kmers` call on this thread.
+    static LAST_PASSES: Cell<usize> = Cell::new(0);
+    /// When set, `DnaString::from_acgt_bytes` behaves as if AVX2 was not available.
+    static FORCE_SCALAR: Cell<bool> = Cell::new(false);
+}
+
+/// Override the number of bytes per unit of `memory_size` in `filter_kmers` (this thread only).
+pub fn set_mem_unit(unit: Option<usize>) {
+    MEM_UNIT.with(|m| m.set(unit));
+}
+
+/// Number of bucket passes made by the most recent `filter_kmers` call on this thread.
+pub fn last_passes() -> usize {
+    LAST_PASSES.with(|m| m.get())
+}
+
+/// Force the scalar (non-AVX2) ingestion path of `from_acgt_bytes` (this thread only).
+pub fn set_force_scalar(v: bool) {
+    FORCE_SCALAR.with(|m| m.set(v));
+}
+
+pub(crate) fn force_scalar() -> bool {
+    FORCE_SCALAR.with(|m| m.get())
+}
+
+pub(crate) fn max_mem(memory_size: usize, default: usize) -> usize {
+    match MEM_UNIT.with(|m| m.get()) {
+        Some(unit) => memory_size * unit,
+        None => default,
+    }
+}
+
+pub(crate) fn record_passes(n: usize) {
+    LAST_PASSES.with(|m| m.set(n));
+}
